@@ -22,6 +22,7 @@ class VirtualLoop(asyncio.BaseEventLoop):
         self._vtime = self.T0
         self.steps = 0
         self.max_steps = 2_000_000
+        self.tick = 0.0  # virtual seconds that pass per callback (0: time only moves in advance*())
         self._thread_id = threading.get_ident()
         self.thread_executor = False
         self.executor_threads = []  # thread idents that ran executor jobs (observable for task.executor)
@@ -77,6 +78,8 @@ class VirtualLoop(asyncio.BaseEventLoop):
             if self.steps > self.max_steps:
                 raise HorizonExceeded("callback horizon exceeded")
             h._run()
+            if self.tick:
+                self._vtime += self.tick
             return True
         return False
 
